@@ -208,6 +208,13 @@ def run(ctx):
             continue
         classes, time, rate, accel, jerk, accum = case
         ambient = G.pick_ambient(rng)
+        if accum == "clear" and rng.random() < 0.3:
+            accum = G.fresh_clear(rng)
+            classes.append("'clear' passed as a string built at run time")
+        if rng.random() < 0.01:
+            from plotink import ebb_calc as _ec
+            G.failed_call(rng, rng.choice((_ec.move_dist_t3, _ec.rate_t3)), 5 if rng.random() < 0.5 else 4)
+            classes.append("after a failed call (malformed arguments, exception caught by the caller)")
         classes.append("ambient:%s" % ambient.kind)
         ctx.case(classes, (time, rate, accel, jerk, accum, ambient.kind, ambient.value))
         ctx.sample({"T": time, "rate": rate, "accel": accel, "jerk": jerk, "accum": accum,
@@ -220,7 +227,9 @@ def run(ctx):
         done += 1
     import_time_phase(ctx, ctx.budget(800, 6000))
     mon = install(ctx)
-    for cls in NEEDED + ["history: related arguments after a previous call", "module imported under low precision"]:
+    for cls in NEEDED + ["history: related arguments after a previous call", "module imported under low precision",
+                         "'clear' passed as a string built at run time",
+                         "after a failed call (malformed arguments, exception caught by the caller)"]:
         ctx.need(cls, 40)
     ctx.need("monitor:move_dist_t3 evaluated", 30_000)
     ctx.need("monitor:rate_t3 evaluated", 30_000)
